@@ -3,26 +3,26 @@
 import json, os
 HERE = os.path.dirname(os.path.dirname(os.path.abspath(__file__)))
 TECH = {
- "C01": ("byte-set interpretation of the unescape guard (4x256 cells) + def-use term extraction of canonicalize_url (component flow, scheme x port table, trailing slash) + codec error-handler dataflow", "4.C01"),
- "C02": ("dataflow ordering on canonicalize_url terms (cleaning pass, dot-segments vs empty path, unquote vs dot-segments, quoted = quote(unquote)) + regex-language inclusion (escape case, control chars) + byte tables", "4.C02"),
+ "C01": ("byte-set reading of the unescape guard (4x256 cells; the same questions on the interpreted callables when the guard's shape is not the reviewed one) + def-use term extraction of canonicalize_url (component flow, scheme x port table, netloc template, trailing slash, query-list mappers) + codec error-handler dataflow; an unrecognised code shape is decided on the reviewed table of class representatives", "4.C01"),
+ "C02": ("dataflow ordering on canonicalize_url terms (cleaning pass, dot-segments vs empty path, unquote vs dot-segments, quoted = quote(unquote)) + regex-language inclusion (escape case, control chars, whitespace) + byte tables + normpath against the RFC 3986 reference on every short path", "4.C02"),
  "C03": ("sibling cross-check of pipeline terms (canonicalize vs normalize transformer sets, port-table agreement incl. protocol-relative urls, decode-before-filter/sort, fragment decided after unescape, platform parsers fed with the canonical url) + fingerprint_url factors through normalize_url (term shape) + regex-language / callback tables on infer_redirection's pre-pass (letters, control characters)", "4.C03"),
- "C04": ("regex-language inclusion of pinned irrelevant-key / sub-domain / redirect-spelling languages in today's, table inclusion, sort-key injectivity over value classes, required-step and order queries on normalize_url terms, finite-domain table of the shared host helper (fixed point)", "4.C04"),
- "C05": ("regex-language emptiness (whole-label removal, '&amp;' repair, protocol language), partial evaluation of normalize_url terms per option (option ownership), allowed-transformer sets per sink, exception-escape over the may-raise table, finite-domain tables (host helper, combo tables, netloc template, query splitting)", "4.C05"),
+ "C04": ("regex-language inclusion of pinned irrelevant-key / sub-domain / redirect-spelling languages in today's, table inclusion, sort-key injectivity over value classes, required-step and order queries on normalize_url terms, finite-domain table of the shared host helper (fixed point), index-page stems", "4.C04"),
+ "C05": ("regex-language emptiness (whole-label removal, '&amp;' repair, protocol language), partial evaluation of normalize_url terms per option (option ownership), allowed-transformer sets per sink (an unknown transformer is decided on the reviewed representative table), exception-escape over the may-raise table, finite-domain tables (host helper, combo tables, netloc template, query splitting)", "4.C05"),
  "C06": ("term shape of fingerprint_url (constant port/scheme sinks, option defaults, lower-after-unescape), finite-domain interpretation of the language-label guard and query filters", "4.C06"),
- "C07": ("sibling cross-checks on terms: shared host helper and step order in hostname helpers vs URL functions, get_hostname vs safe_urlsplit term equality modulo normal forms, forwarding checks on the *_lru_stems variants, string form = urlunsplit(tuple); decision tables of the protocol helpers", "4.C07"),
- "C08": ("model table: SuffixTrie interpreted (analyser's own evaluator, no import of ural) on a 13-rule miniature list x host classes against the publicsuffix.org algorithm + rule-set conditions evaluated on all bundled rules + TLD predicate terms", "4.C08"),
- "C09": ("CFG pairing rules on set_and_prune_if_shorter (descend=>record, prune deltas, guard re-establishment), tokenizer agreement add/match via terms, typestate on lookups", "4.C09"),
- "C10": ("sentinel-discipline lint, CFG pairing rules on __setitem__, typestate 'every visited node is examined' on lookups and traversals, exit-shape rules", "4.C10"),
- "C11": ("sibling normalisation of the four LRUTrie entry points (terms, self-helpers inlined), variant forwarding, finite-domain interpretation of clean_trailing_path, normpath against the RFC 3986 reference (all paths <= 4 segments), shared TrieDict typestate/pairing rules", "4.C11"),
- "C12": ("model tables: lru_stems / url_to_lru / lru_to_url interpreted on one url per component-presence class against the documented stem format and a urlsplit round trip; splitter tag alphabet by constant folding; port-splitter look-ahead language; SuffixTrie model table", "4.C12"),
- "C13": ("emission-order rule over the tagged appends (program order) + the LRU and SuffixTrie model tables + serialisation terminator + special-host language", "4.C13"),
- "C14": ("byte-set table interpretation of _unquote_impl, hex-table enumeration, regex-language equivalence of the escape patterns, path rule on unquote's returns, codec error-handler dataflow", "4.C14"),
+ "C07": ("sibling cross-checks on terms: shared host helper and step order in hostname helpers vs URL functions, get_hostname vs safe_urlsplit term equality modulo normal forms, forwarding checks on the *_lru_stems variants (calls in canonical argument form), string form = urlunsplit(tuple); decision tables of the protocol helpers", "4.C07"),
+ "C08": ("model table: SuffixTrie and the tld functions interpreted (analyser's own evaluator, no import of ural) on a 13-rule miniature list x host classes (depth, case incl. non-ASCII, trailing dot, wildcard / exception) against the publicsuffix.org algorithm + instance independence + rule-set conditions evaluated on all bundled rules + punycode table", "4.C08"),
+ "C09": ("bounded model table: HostnameTrieSet interpreted on every ordered selection of <= 2 (quick) / 3 (thorough) adds over 10 hosts, observed at the end and after every add, against the set-of-suffix-closed-hosts reference + CFG pairing rules on set_and_prune_if_shorter + tokenizer agreement add/match via terms (interpreted tokenizer cells when the shape is not recognised) + typestate on lookups", "4.C09"),
+ "C10": ("bounded model table: TrieDict interpreted on every history of <= 2 / 3 assignments over 5 keys x 2 values (observed at the end and between assignments) against a dict + sentinel-discipline lint, CFG pairing rules on __setitem__, typestate 'every visited node is examined' on lookups and traversals, exit-shape rules", "4.C10"),
+ "C11": ("bounded model table: LRUTrie interpreted on every history of <= 2 / 3 stores over 7 keys (incl. the LRU without stems) through its four entry points + tokenize decided by interpreting it on instances with the stems functions replaced by recorders + sibling normalisation of the entry points (terms), variant forwarding, clean_trailing_path table, normpath reference, unescape byte tables (same string => same key), shared TrieDict typestate/pairing rules", "4.C11"),
+ "C12": ("model tables: lru_stems / url_to_lru / lru_to_url interpreted on one url per component-presence class (both suffix settings, each url also after the other setting) against the documented stem format and a urlsplit round trip; splitter tag alphabet by constant folding; port-splitter look-ahead language; SuffixTrie model table", "4.C12"),
+ "C13": ("emission-order rule over the tagged appends (program order, constant tags folded) + the LRU and SuffixTrie model tables (protocol-relative and cross-setting cells) + serialisation terminator + special-host language", "4.C13"),
+ "C14": ("byte-set table reading of _unquote_impl (or, for another shape of the module, the same table on the interpreted callables), hex-table enumeration, regex-language equivalence of the escape patterns, path rule on unquote's returns, codec error-handler dataflow", "4.C14"),
  "C15": ("progress-guard rule: path conditions of the recursive call evaluated over the orderings of len(target) vs len(url); provenance of returned terms", "4.C15"),
- "C16": ("regex-language inclusion lattice of the four URL patterns + truth-table proof of option monotonicity over the decision term (table dispatch folded) + validated-before-yield path rules on urls_from_text when it delegates to no helper + model table of urls_from_text on text classes", "4.C16"),
- "C17": ("twin-regex encoding/flags/ASCII-determinedness, normalised AST comparison of the str/bytes iterators when both exist, model tables: urls_from_html on document classes (str and bytes) and links_from_html on href classes x 8 option settings against the documented filter chain", "4.C17"),
- "C18": ("regex-language products: string form vs reference url language over U, parsed form vs pinned domain language (look-alike emptiness), attribute-dependence on terms, domain-list hygiene", "4.C18"),
- "C19": ("abstract interpretation (list-length intervals with length aliases, optional values, dict keys) over 34 platform functions, validator-dominance on record constructions, template/route agreement, model tables: YouTube and Facebook parsers interpreted on route x id/name classes (totality, valid ids, canonical-url round trip)", "4.C19"),
- "C20": ("regex-language facts on PROTOCOL_RE (prefix code, anchoring), decision-table reading of the protocol helpers and safe_urlsplit (recognised atomic tests, arms evaluated on marker values), finite-domain tables of format_url / URLFormatter / add_query_argument / safe_qsl_iter, reader/writer agreement of get_query_argument", "4.C20"),
+ "C16": ("regex-language inclusion lattice of the four URL patterns + truth-table proof of option monotonicity over the decision term + validated-before-yield and stripped-after-last-cut path rules on urls_from_text (the latter from the language fact that a match can hold whitespace inside) + model tables of urls_from_text on text classes and of has_valid_tld / is_valid_tld over a miniature TLD table", "4.C16"),
+ "C17": ("twin-regex encoding/flags/ASCII-determinedness, normalised AST comparison of the str/bytes iterators when both exist, model tables: urls_from_html on document classes (str and bytes) and links_from_html on href classes x 8 option settings against the documented filter chain; protocol-pattern agreement on whatever pattern should_follow_href reaches", "4.C17"),
+ "C18": ("regex-language products: string form vs reference url language over U, parsed form vs pinned domain language (look-alike emptiness), attribute-dependence on terms, domain-list hygiene, model table of the three trie predicates (module-level tries built by interpreting the modules' own top-level loops) on a stride of the lists x url classes", "4.C18"),
+ "C19": ("abstract interpretation (list-length intervals with length aliases, optional values incl. a split result handed to another function of the package, dict keys) over 34 platform functions, validator-dominance on record constructions, template/route agreement, model tables: YouTube and Facebook parsers interpreted on route x id/name classes (totality, valid ids, canonical-url round trip)", "4.C19"),
+ "C20": ("regex-language facts on PROTOCOL_RE (prefix code, anchoring), decision-table reading of the protocol helpers and safe_urlsplit (recognised atomic tests, arms evaluated on marker values; an unrecognised test is decided on the interpreted url-class x protocol-spelling cells), finite-domain tables of format_url / URLFormatter / add_query_argument / safe_qsl_iter, reader/writer agreement of get_query_argument", "4.C20"),
 }
 ND = {
  "C01": "decides component-wise safety conditions only (unescape tables, component ownership, port/slash rules); that the composed steps re-parse to the same components for every string is not derived",
@@ -32,18 +32,18 @@ ND = {
  "C05": "decides deletion-only / option-ownership / exception-escape conditions on the terms; exact equality of each output part with the input's for all 2^10 option settings is not derived",
  "C06": "decides the result shape and the guards of the language-label / query filters on class representatives; invariance over all URLs x suffixes is not derived",
  "C07": "decides that helper and URL function apply the same steps in the same order; equality of outputs on every input (differential) is not derived",
- "C08": "decides the walk's shape features and their conditions on the bundled list; conformance for arbitrary rule sets beyond those features is not derived",
- "C09": "decides pairing/delta/typestate conditions on the trie code; set semantics over all insertion histories is not derived",
- "C10": "decides sentinel, pairing, exit-shape and typestate conditions; observational equivalence with dict over all histories is not derived",
- "C11": "decides sibling normalisation and delegation; longest-prefix semantics over histories rests on C10/C12/C13 conditions and is not derived",
- "C12": "decides writer/reader table agreement; losslessness for every URL is not derived",
- "C13": "decides emission order, iteration direction and terminator; the ancestor law and its converse over all URL pairs are not derived",
+ "C08": "decides conformance on the miniature rule list's rule kinds x host classes and rule-set conditions on the bundled list; conformance for arbitrary rule sets beyond those kinds is not derived",
+ "C09": "set semantics is decided for every add history up to the stated bound over the stated host universe, plus pairing/delta/typestate conditions on the code; longer histories are not derived",
+ "C10": "observational equivalence with dict is decided for every history up to the stated bound over a 5-key universe, plus sentinel, pairing, exit-shape and typestate conditions; longer histories are not derived",
+ "C11": "longest-prefix semantics is decided for every store history up to the stated bound over 7 keys, plus sibling normalisation and delegation; longer histories and arbitrary urls rest on the C10/C12/C13 conditions",
+ "C12": "decides writer/reader agreement on one url per component-presence class; losslessness for every URL is not derived",
+ "C13": "decides emission order, iteration direction, terminator and the stems of each url class; the ancestor law and its converse over all URL pairs are not derived",
  "C14": "decides the byte tables, escape languages and structural idempotence conditions; byte-level equality of decoded content for all strings is not derived",
  "C15": "decides structural termination (well-founded length decrease on the only recursive call) and provenance; fixed-point equality is not derived",
- "C16": "monotonicity is proved over all strings modulo the automata construction; for urls_from_text validation/index safety on all paths is decided, document-order is only structural",
- "C17": "decides twin agreement, filter-chain dominance/order and sibling option agreement; 'one url per anchor tag' over all documents is not derived",
- "C18": "host-language claims are exact over the stated comparison domain U (whitespace-free urls with http(s) / '//' / bare spelling) modulo the automata construction; trie predicates rest on C09 conditions",
- "C19": "decides positional/keyed/optional access safety on recognised idioms, validator dominance and route agreement; ValueError raised by the standard parser and full round-trip equality are not derived",
+ "C16": "monotonicity is proved over all strings modulo the automata construction; for urls_from_text validation / strip / index safety on all paths is decided, document-order is only structural",
+ "C17": "decides twin agreement, the filter chain on href classes and sibling option agreement; 'one url per anchor tag' over all documents is not derived",
+ "C18": "host-language claims are exact over the stated comparison domain U (whitespace-free urls with http(s) / '//' / bare spelling) modulo the automata construction; the trie predicates are decided on a stride of their lists x url classes and rest on C09 conditions otherwise",
+ "C19": "decides positional/keyed/optional access safety on recognised idioms, validator dominance and route agreement; ValueError raised by the standard parser and full round-trip equality beyond the route x name classes are not derived",
  "C20": "decides language facts, branch templates and builder/value-class tables; the algebraic laws as relations over all strings are not derived",
 }
 NOT_DECIDED = ND
@@ -63,8 +63,8 @@ def main():
                 "evidence_file": "evidence/%s.json" % pid,
                 "replay_cmd_template": "bin/check %s --replay {path}" % pid,
                 "engine": "uralverif",
-                "level_claimed": {"category": "other", "text": "Static analysis of /repo's current source (no import or execution of ural): every rule is universally quantified over a finite table, a regular language, or all paths of a function, and reports a named construct. " + NOT_DECIDED[pid], "design_ref": "DESIGN.md section " + ref},
-                "level_note": "Trusted base: CPython ast and re._parser; uralverif/relang.py automata (cross-checked against re in selftest); documented behaviour of urllib.parse / html. " + NOT_DECIDED[pid],
+                "level_claimed": {"category": "other", "text": "Static analysis of /repo's current source (ural is never imported or run by CPython): every rule is universally quantified over a finite table, a regular language, all paths of a function, or -- for the model tables -- every member of a stated finite set of class representatives / bounded histories on which the analyser's own evaluator interprets the function's syntax tree; each report names a construct. " + NOT_DECIDED[pid], "design_ref": "DESIGN.md section " + ref},
+                "level_note": "Trusted base: CPython ast and re._parser; uralverif/relang.py automata and uralverif/microeval.py evaluator (cross-checked against re / against the reviewed table spec/e2e_rows.json in selftest); documented behaviour of urllib.parse / html / codecs. " + NOT_DECIDED[pid],
                 "technique": "static analysis: " + tech,
             })
         else:
